@@ -32,8 +32,8 @@ func worldSpec() map[string]spec.V {
 		"t":    {K: "time", S: "2024-02-29T12:34:56.789Z", Z: "Asia/Shanghai"},
 		"arr":  {K: "slice", L: []spec.V{sv("int", "1"), sv("string", "a"), {K: "nil"}}},
 		"earr": {K: "slice"},
-		"strs": {K: "strs", L: []spec.V{sv("string", "a"), sv("string", "b")}},
-		"ints": {K: "ints", L: []spec.V{sv("int", "1"), sv("int", "2")}},
+		"strs": {K: "strs", L: []spec.V{sv("string", "b"), sv("string", "c"), sv("string", "a")}},
+		"ints": {K: "ints", L: []spec.V{sv("int", "3"), sv("int", "1"), sv("int", "2")}},
 		"maps": {K: "maps", L: []spec.V{{K: "map", M: map[string]spec.V{"k": sv("int", "1")}}, {K: "map", M: map[string]spec.V{"k": sv("string", "v")}}}},
 		"m": {K: "map", M: map[string]spec.V{"a": sv("int", "1"), "n": {K: "nil"}, "s": sv("string", "x"),
 			"b": {K: "map", M: map[string]spec.V{"c": sv("string", "deep"), "z": sv("int", "0")}}}},
